@@ -8,9 +8,9 @@ import glob as _glob
 import importlib.util
 from lib.core import *
 
-LEAN_TARGETS = ["Gama.Props.C11DataParser", "Gama.Props.C11PureData"]
+LEAN_TARGETS = ["Gama.Props.C11DataParser", "Gama.Props.C11PureData", "Gama.Props.C11DataParserAccept"]
 DRIVERS = ["drv_dataparser"]
-PROPS_FILES = ["Gama/Props/C11DataParser.lean", "Gama/Props/C11PureData.lean"]
+PROPS_FILES = ["Gama/Props/C11DataParser.lean", "Gama/Props/C11PureData.lean", "Gama/Props/C11DataParserAccept.lean"]
 
 RULE_DP = ("DataParser documents: for every parser state reached on the implementation (prefixes found by breadth-first "
            "exploration of the real parser along the generated table) a probe with every tag of the row, an unknown name, "
@@ -130,6 +130,21 @@ def run_docs(ctx, corr, exe, docs, stream, quiet=False):
                           mR[max(0, j - 2):j + 1], "state/error after an event differs")
         elif cut == len(R) and not expat_err and mO != O[:1]:
             corr.disagree(stream, payload, O, mO, "outcome differs")
+        # ---- DP.crun: the run on the REAL text (number-format conditions computed from the text of the events, text_buffer modelled):
+        # state / error kind after every event, acceptance bit and the line of the refusal
+        if not skip_model:
+            mV = ["R" + l[1:] for l in model[i] if l.startswith("V ")]
+            mW = ["O" + l[1:] for l in model[i] if l.startswith("W ")]
+            corr.count("dp_value_docs")
+            corr.count("dp_value_events", min(cut, len(mV)))
+            if mV[:cut] != R[:cut] or (cut == len(R) and len(mV) != len(R)):
+                j = next((j for j in range(min(cut, len(mV))) if R[j] != mV[j]), min(cut, len(mV)))
+                corr.disagree("dp_values", payload, {"event": mcases[i][j] if j < len(mcases[i]) else None, "index": j, "R": R[max(0, j - 2):j + 1]},
+                              mV[max(0, j - 2):j + 1], "DP.crun (conditions computed from the real text): state/error after an event differs")
+            elif cut == len(R) and not expat_err:
+                corr.count("dp_value_outcome_" + ("accepted" if O[0] == "O ok" else "refused"))
+                if mW != O[:1]:
+                    corr.disagree("dp_values", payload, O, mW, "DP.crun: acceptance bit / line of the refusal differs")
         # ---- oracle on the implementation's own answers
         if ot[1] == "parser" and int(ot[2]) < 1:
             corr.fail(f"DataParser refuses without a line number ({O[0]}) : {label}", payload, "DataParser::end_tag", "\n".join(out[-4:]))
@@ -411,6 +426,16 @@ def run_pure_data(ctx, corr, exe):
         strs += layer
     ops = [f"pd d {hexs(x)}" for x in strs]
     rng = ctx.rng
+    # int / size_t extractions (adjustment input: <dim>, <rows>, <nonz>, <int> …): all strings up to length 3, range borders
+    istrs = [x for x in strs if len(x) <= 3]
+    ops += [f"pd i {hexs(x)}" for x in istrs] + [f"pd u {hexs(x)}" for x in istrs]
+    for v in ("2147483647", "2147483648", "-2147483648", "-2147483649", "18446744073709551615", "18446744073709551616", "-18446744073709551615",
+              "-18446744073709551616", "-1", "+1", "-0", "007", "9223372036854775807", "9223372036854775808", "-9223372036854775809", "1.5", "1e3", "12x",
+              "99999999999999999999999999"):
+        for k in ("i", "u", "ui", "ud", "uu", "uuu"):
+            for pre in (b"", b"3 ", b" 4 5 "):
+                ops.append(f"pd {k} {hexs(pre + v.encode())}")
+                ops.append(f"pd {k} {hexs(pre + v.encode() + b' ')}")
     for k in ("wd", "dd", "wwd", "ddd", "w", "dw"):
         for v in NOT_A_NUMBER + ["1", "1.5e3", "1e999", "-0", "5.", ".5"]:
             for pre in (b"A ", b"A B ", b"1 2 ", b" 7 \n", b""):
@@ -418,7 +443,7 @@ def run_pure_data(ctx, corr, exe):
                 ops.append(f"pd {k} {hexs(pre + v.encode() + b' ')}")
     for _ in range(ctx.size(1500, 20000)):
         x = bytes(rng.choice(b"0123456789+-.eE \t\nxA") for _ in range(rng.randint(0, 12)))
-        ops.append(f"pd {rng.choice(['d', 'dd', 'wd', 'wwd', 'ddddd'])} {hexs(x)}")
+        ops.append(f"pd {rng.choice(['d', 'dd', 'wd', 'wwd', 'ddddd', 'i', 'u', 'uu', 'ud', 'wwddd', 'wddd'])} {hexs(x)}")
     chunks = [ops[i:i + 4000] for i in range(0, len(ops), 4000)]
     impl, crashes = run_cases(exe, chunks, timeout=3600)
     model, mcr = run_cases(ctx.driver("drv_dataparser"), chunks, timeout=3600)
